@@ -992,6 +992,10 @@ def run(chk: Check) -> None:
     d2f_join_over_text(chk, cl)
     d2h_aoh_means_raw_elements_are_mappings(chk)
     d2i_wrapper_equality_is_total(chk)
+    from rules.shared import optional_groups_rule
+    optional_groups_rule(chk, "C15-D2j", ("yamlpath/common/nodes.py",
+                                          "yamlpath/common/parsers.py",
+                                          "yamlpath/processor.py"), 1)
     from rules.shared import implicit_ordering_rule
     implicit_ordering_rule(chk, "C15-D2g", [
         f for f in cl if not f.short.startswith(C14_OWNED_PREFIX)], 40)
